@@ -38,6 +38,13 @@ class Case:
         self.pkgname = self.dir
         self.opts = case.get('opts', {}) or {}
         self.naming = self.P.get('naming') or {}
+        # atoms some leaf spells through a type alias (type A_T = T)
+        self.aliased = set()
+        for l in self.P.get('leaves', []):
+            if l.get('alias'):
+                for t in (l.get('out'), l.get('s'), l.get('conc'), l.get('parent')):
+                    if t:
+                        self.aliased.add(split_type(t)[1])
         self.extravars = self.P.get('extravars') or []
 
     def nm(self, ident):
@@ -80,9 +87,16 @@ class Case:
     def spell(self, atom):
         return atom.get('go') or atom['id'] if not (atom.get('go') or '').startswith('kind:') else atom['id']
 
-    def gotype(self, t, frompkg, used):
+    def gotype(self, t, frompkg, used, alias=False):
         pre, a = split_type(t)
         at = self.atoms[a]
+        if alias:
+            self.aliased.add(a)
+            q = ''
+            if at['pkg'] != frompkg:
+                q = self.alias(at['pkg']) + '.'
+                used.add(at['pkg'])
+            return ''.join(pre) + q + 'A_' + at['id']
         q = ''
         if at['pkg'] != frompkg:
             q = self.alias(at['pkg']) + '.'
@@ -185,6 +199,8 @@ class Case:
                     used.add('!unsafe')
                 body.append('type %s %s%s\n' % (i, '= ' if alias else '', g))
                 body.append('func Mk%s(tok string) %s { _ = tok; return %s }\n' % (i, i, NAMED_MK[g] % {'T': i}))
+            if i in self.aliased:
+                body.append('type A_%s = %s\n' % (i, self.nm(i)))
             for m in at.get('impl', []):
                 star = '*' if m['recv'] == 'pointer' else ''
                 body.append('func (%s%s) M%s() {}\n' % (star, self.nm(i), m['iface']))
@@ -228,7 +244,7 @@ class Case:
                     ty = '...' + ty[2:]
                 params.append('a%d %s' % (j + 1, ty))
                 names.append('a%d' % (j + 1))
-            outty = self.gotype(l['out'], pkg, used)
+            outty = self.gotype(l['out'], pkg, used, alias=l.get('alias', False))
             res, derived = self.result_types(l, outty)
             sig = 'func %s(%s) ' % (self.nm(l['name']), ', '.join(params))
             sig += ('(%s)' % ', '.join(res)) if len(res) != 1 else res[0]
@@ -289,7 +305,7 @@ class Case:
                 return self.alias(l['pkg']) + '.' + self.nm(l['name'])
             return self.nm(l['name'])
         if k == 'struct':
-            args = ['new(%s)' % self.gotype(l['s'], frompkg, used)]
+            args = ['new(%s)' % self.gotype(l['s'], frompkg, used, alias=l.get('alias', False))]
             if l['all']:
                 args.append('"*"')
             else:
@@ -299,14 +315,16 @@ class Case:
             return self.gotype(l['s'], frompkg, used) + '{}'
         if k == 'value':
             e = l['expr'] or self.valexpr(l['out'], 'V:' + l['name'], frompkg, used)
+            if l.get('alias'):
+                e = '%s(%s)' % ('(' + self.gotype(l['out'], frompkg, used, alias=True) + ')', e)
             return 'wire.Value(%s)' % e
         if k == 'ivalue':
             e = l['expr'] or self.valexpr(l['conc'], 'V:' + l['name'], frompkg, used)
             return 'wire.InterfaceValue(new(%s), %s)' % (self.gotype(l['iface'], frompkg, used), e)
         if k == 'bind':
-            return 'wire.Bind(new(%s), new(%s))' % (self.gotype(l['iface'], frompkg, used), self.gotype(l['conc'], frompkg, used))
+            return 'wire.Bind(new(%s), new(%s))' % (self.gotype(l['iface'], frompkg, used), self.gotype(l['conc'], frompkg, used, alias=l.get('alias', False)))
         if k == 'fields':
-            return 'wire.FieldsOf(new(%s), %s)' % (self.gotype(l['parent'], frompkg, used), ', '.join('"%s"' % n for n in l['names']))
+            return 'wire.FieldsOf(new(%s), %s)' % (self.gotype(l['parent'], frompkg, used, alias=l.get('alias', False)), ', '.join('"%s"' % n for n in l['names']))
         raise ValueError(k)
 
     def sets_file(self, pkg):
